@@ -1497,15 +1497,19 @@ def run_check(prop: str, tier: str, runner, explanation: str,
         os.path.join(VERIF, "evidence")
     os.makedirs(os.path.join(evdir, "replay"), exist_ok=True)
     evfile = os.path.join(evdir, prop + ".json")
+    ctx = None
     try:
         prog = Program()
         ctx = Ctx(prop, prog, tier)
         runner(ctx)
     except AnalysisError as e:
         print("ANALYSIS-ERROR property=%s %s" % (prop, e))
+        # violations established by rules that ran before the analysis gave
+        # up are still violations (rules are independent of each other)
+        done = _report_partial(ctx, prop, evdir)
         _write_evidence(evfile, prop, tier, seed, explanation, assumptions,
                         None, [], [], time.time() - t0, error=str(e))
-        return 2
+        return 1 if done else 2
     except Exception as e:            # analyser crash: never a verdict
         traceback.print_exc()
         print("ANALYSIS-ERROR property=%s analyser crashed: %r" % (prop, e))
@@ -1553,6 +1557,36 @@ def run_check(prop: str, tier: str, runner, explanation: str,
           (prop, tier, nob, nok, len(violations), len(knowns),
            len(ctx.unknown), time.time() - t0))
     return code
+
+
+def _report_partial(ctx, prop, evdir):
+    """print the VIOLATION lines for findings collected before an
+    AnalysisError stopped the run; returns their number"""
+    if ctx is None or not ctx.findings:
+        return 0
+    known = load_known()
+    kkeys = {(k["property"], k["key"]) for k in known.get("known", [])}
+    n, seen = 0, set()
+    for f in ctx.findings:
+        if f.key in seen or (prop, f.key) in kkeys:
+            continue
+        seen.add(f.key)
+        rp = os.path.join(evdir, "replay", "%s-%d.json" % (prop, n))
+        with open(rp, "w") as fh:
+            json.dump({"property": prop, "rule": f.rule,
+                       "rule_text": ctx.rules.get(f.rule, ""),
+                       "where": f.where, "construct": f.construct,
+                       "file": f.file, "line": f.line,
+                       "message": f.message, "facts": f.facts,
+                       "path": f.path, "key": f.key}, fh, indent=1,
+                      default=str)
+        print("%s:%s: [%s] %s: %s -- %s" % (f.file, f.line, f.rule, f.where,
+                                            f.construct, f.message))
+        print("VIOLATION property=%s replay=%s" %
+              (prop, os.path.relpath(rp, VERIF)
+               if rp.startswith(VERIF + os.sep) else rp))
+        n += 1
+    return n
 
 
 def _write_evidence(evfile, prop, tier, seed, explanation, assumptions, ctx,
